@@ -2,7 +2,7 @@
    Only the property theorems, each closed by [exact] of a lemma of Proofs*.v and followed by
    Print Assumptions.  [run h gc_init] is the collector state after an arbitrary history [h] of
    mutator commands (Model.op) from GC:init. *)
-From C10 Require Import Model Proofs Safety Defects Frame Finalize Exit Garbage AllocSafe Abort OpFrame ReallocSafe EveryOp CoStack.
+From C10 Require Import Model Proofs Safety Defects Frame Finalize Exit Garbage AllocSafe Abort OpFrame ReallocSafe EveryOp CoStack Needed.
 Local Open Scope Z_scope.
 
 (* the tracked byte count always equals the sum of the registered sizes (as usize) *)
@@ -235,3 +235,33 @@ Theorem C10_stacktop_reset_needed :
     chain cs = [] /\ stacktop cs <> None /\ In w (mstack cs) /\ ~ In w (scanned cs []).
 Proof. exact stacktop_reset_needed. Qed.
 Print Assumptions C10_stacktop_reset_needed.
+
+(* ---- companions of the scraped repair flags: each main statement is false under the other policy ---- *)
+(* [reg_flags] is [reg_flags_gen AUTO_LEAF_ON_REGISTER FINALIZE_BIT] (reg_flags_is_gen, by computation) *)
+
+(* LEAF rule (9c3dee4): with LEAF forced at registration, a 4-byte block grown to 64 bytes carries
+   LEAF undeclared - the statement of C10_leaf_flag_sound fails for it *)
+Theorem C10_leaf_rule_needed :
+  let it := resize_item 64 (mkItem (reg_flags_gen true FINALIZE_BIT 0 4 None) 4 None [0] false) in
+  hasflag (iflags it) LEAF_BIT = true /\ ~ (idecl it = true \/ isize it < WORD_SIZE).
+Proof. exact leaf_rule_needed. Qed.
+Print Assumptions C10_leaf_rule_needed.
+
+(* FINALIZE <> ROOT (fe9bb7e): [register_branch_gen ROOT_BIT] is the branch GC:register takes
+   (register_branch_is_gen); when the finalize flag is the ROOT bit, re-registering a block with a
+   finalizer trips the assert C10_no_abort excludes; with the scraped bits it does not *)
+Theorem C10_finalize_bit_needed :
+  let f := mkFin 0 0 1 in
+  register_branch_gen ROOT_BIT (reg_flags_gen false ROOT_BIT 0 32 (Some f)) (Some f) = Some ErrRootWithFinalizer /\
+  register_branch_gen ROOT_BIT (reg_flags_gen false FINALIZE_BIT 0 32 (Some f)) (Some f) = None.
+Proof. exact finalize_bit_needed. Qed.
+Print Assumptions C10_finalize_bit_needed.
+
+(* GC:destroy (2edb035): [destroy] is [destroy_gen DESTROY_SWEEPS]; inside the model (finalizers
+   register nothing) only "at least one sweep" can be shown to be needed: with none the exit
+   theorem fails.  That ONE sweep is not enough is outside the model (replayed exit witness). *)
+Theorem C10_destroy_sweep_needed :
+  let g := destroy_gen 0 (run [OAlloc 4096 32 false false 1 7 []] gc_init) in
+  err g = None /\ nextfid g = 1 /\ lcnt (log g) 0 + dcnt (dropped g) 0 = 0.
+Proof. exact destroy_sweep_needed. Qed.
+Print Assumptions C10_destroy_sweep_needed.
